@@ -137,6 +137,17 @@ def _first_error(out):
     return out[i:i + 1500] if i >= 0 else out[-1500:]
 
 
+def _nonull(x):
+    """TLC's JSON reader has no null: a None that slips into a case (a field only documentation reads) becomes ''"""
+    if x is None:
+        return ''
+    if isinstance(x, list):
+        return [_nonull(y) for y in x]
+    if isinstance(x, dict):
+        return {k: _nonull(v) for k, v in x.items()}
+    return x
+
+
 def validate_traces(module, cases, workdir, cfg_consts='', invariants=(), shards=NCPU, timeout=3600, tag='tr',
                     spec='Spec'):
     """leg C: validate a batch of independent traces; returns (verdicts, stats)
@@ -153,7 +164,7 @@ def validate_traces(module, cases, workdir, cfg_consts='', invariants=(), shards
     def one(k):
         path = os.path.join(workdir, f'cases_{tag}_{k}.json')
         with open(path, 'w') as fh:
-            json.dump([cases[i] for i in parts[k]], fh, separators=(',', ':'))
+            json.dump(_nonull([cases[i] for i in parts[k]]), fh, separators=(',', ':'))
         out, rc, secs = run_tlc(module, cfg, workdir, {'CASES': path}, 1, timeout, (), f'{tag}{k}')
         return k, out, rc, secs
 
